@@ -426,7 +426,16 @@ def run(ctx: core.Check):
                        "grid distances differ by less than 2^-50 is accepted either way",
                        "levels np.linspace(0.001, 0.999, n) are supplied to the model by the harness (numpy table)"]
     gen_out = core.LEAN / "Pun/Gen/GridGen.lean"
-    ctx.lean_stage(["Pun.Props.C18"], generators=[
+    def _cuts():
+        from .translator import cuts
+        r = cuts.generate(core.REPO, core.LEAN / "Pun/Gen/CutsGen.lean")
+        pi = r["get_PI"]
+        return (f"ok: alpha_cut lo={r['alpha_cut']['lo']} hi={r['alpha_cut']['hi']}; cdf lo={r['cdf']['lo']} hi={r['cdf']['hi']}; "
+                f"native lo={r['discretise']['lo']} hi={r['discretise']['hi']}; outer lo={r['outer']['lo']} hi={r['outer']['hi']}; "
+                f"condensation {r['condensation']}; get_PI levels {pi['first']}, {pi['second']}; default {pi['default']}; "
+                f"narrowest {pi['narrowest']} widest {pi['widest']} fallback {pi['fallback']}")
+    ctx.lean_stage(["Pun.Props.C18", "Pun.Props.C18Gen"], generators=[
+        ("query methods of pbox_abc.py (cuts translator)", _cuts),
         ("params.py grid", lambda: trgrid.generate(core.REPO, gen_out)),
         ("np.linspace level tables m=2..steps", lambda: trgrid.generate_levels(core.REPO, core.LEAN / "Pun/Gen/LevelsGen.lean"))])
     Staircase, Params = _api()
